@@ -829,10 +829,41 @@ class Translator:
         self.local_order = order_
         self.returned_names = {x.value.id for st_ in fn.body for x in ast.walk(st_) if isinstance(x, ast.Return) and isinstance(x.value, ast.Name)}
 
+        # "<init>#k" (init one of `[]`, `{}`, `None`): the k-th local, in that order, whose first
+        # assignment has exactly this value (typing an empty collection / a None start value without
+        # depending on the name or on unrelated locals)
+        first_val = {}
+        for x in sorted((x for st_ in fn.body for x in ast.walk(st_) if isinstance(x, (ast.Assign, ast.AnnAssign))), key=lambda x: (x.lineno, x.col_offset)):
+            tg_ = x.targets[0] if isinstance(x, ast.Assign) and len(x.targets) == 1 else (x.target if isinstance(x, ast.AnnAssign) else None)
+            if isinstance(tg_, ast.Name) and tg_.id not in first_val and x.value is not None and tg_.id not in pnames:
+                first_val[tg_.id] = ast.unparse(x.value)
+
+        def _by_init(key):
+            init_, k_ = key.rsplit("#", 1)
+            names_ = [nm for nm in order_ if first_val.get(nm) == init_]
+            if int(k_) - 1 >= len(names_):
+                raise Untranslatable(f"{self.where}: the spec refers to local {key}, the function has {len(names_)} locals starting as {init_}")
+            return names_[int(k_) - 1]
+
+        def _by_value(text):
+            """"~<text>": the local that is (somewhere) assigned exactly this expression"""
+            names_ = []
+            for x in (x for st_ in fn.body for x in ast.walk(st_) if isinstance(x, (ast.Assign, ast.AnnAssign)) and x.value is not None):
+                tg_ = x.targets[0] if isinstance(x, ast.Assign) and len(x.targets) == 1 else (x.target if isinstance(x, ast.AnnAssign) else None)
+                if isinstance(tg_, ast.Name) and template_match(text, x.value) is not None and tg_.id not in names_:
+                    names_.append(tg_.id)
+            if len(names_) != 1:
+                raise Untranslatable(f"{self.where}: the spec refers to the local assigned `{text}`: {len(names_)} such locals")
+            return names_[0]
+
         def _resolve(d):
             out = {}
             for k_, v_ in d.items():
-                if k_.startswith("#"):
+                if k_.startswith("~"):
+                    out[_by_value(k_[1:])] = v_
+                elif "#" in k_ and not k_.startswith("#"):
+                    out[_by_init(k_)] = v_
+                elif k_.startswith("#"):
                     i_ = int(k_[1:]) - 1
                     if i_ >= len(order_):
                         raise Untranslatable(f"{self.where}: the spec refers to local {k_}, the function has {len(order_)} locals")
@@ -841,7 +872,7 @@ class Translator:
                     out[k_] = v_
             return out
 
-        if any(k_.startswith("#") for d_ in (spec.locals, spec.maybe_unbound, spec.in_ops) for k_ in d_) or (spec.stop_at and "#" in spec.stop_at[1]):
+        if any("#" in k_ or k_.startswith("~") for d_ in (spec.locals, spec.maybe_unbound, spec.in_ops) for k_ in d_) or (spec.stop_at and "#" in spec.stop_at[1]):
             import dataclasses as _dc
             import re as _re
 
